@@ -9,7 +9,11 @@ Monitors (all on the real cherab.tools.inversions functions):
                  solution scale (beta_laplace * |L| too large, overflow) is counted and only checked for non-negativity.
                  Fixed point: b = W x*, x0 = x* (and beta L x* = 0) => returned x = x*.  Non-negativity of every result.
   nnls         : x >= 0, g = C^T(Cx-d) >= -tau, x_j g_j <= tau |x|_inf with C = [W; alpha L], d = [b; 0],
-                 tau = 1e-8 (|C|_2^2 |x|_2 + |C|_2 |d|_2); reported norm = |Cx-d|.
+                 tau = 1e-8 (|C|_2^2 |x|_2 + |C|_2 |d|_2); reported norm = |Cx-d|.  A recorder on scipy.optimize.nnls is
+                 used only to name the mechanism of a failed certificate: if the wrapper handed over the documented stacked
+                 system and returned scipy's output unchanged and scipy's output fails the same certificate on its own
+                 input, the key is nnls:scipy-nnls-* (third-party defect passed through), otherwise nnls:kkt-* /
+                 nnls:residual-norm-inconsistent (wrapper).
   lstsq        : |g|_inf <= tau; residuals[0] = |Cx-d|^2 when non-empty.
   svd          : |W^T(Wx-b)|_inf <= tau and x orthogonal to null(W) (minimum norm), skipped when the numerical rank is ambiguous.
   zero_b       : b = 0 driven as its own class for all five entry points (x = 0 is the exact solution / minimiser).
@@ -50,7 +54,7 @@ ASSUMPTIONS = ["geometry matrices are float64 ndarrays with non-negative entries
                "counted, retried through **kwargs with maxiter=50n, and that result is judged",
                "a recorder on scipy.optimize.nnls only attributes failed certificates (wrapper vs third-party solver); "
                "verdicts are always taken on what the cherab function returned"]
-QUICK = dict(cases=2000, workers=2, timecap=40)
+QUICK = dict(cases=3000, workers=2, timecap=38)
 THOROUGH = dict(cases=150000, workers=16, timecap=600)
 REQUIRED = {"sart_iterate": 1000, "csart_iterate": 800, "sart_conv": 500, "csart_conv": 500, "sart_stop": 50,
             "csart_stop": 50, "sart_nonneg": 80, "csart_nonneg": 80, "fixed_point": 100, "nnls_kkt": 50,
@@ -480,11 +484,11 @@ def _run_nnls(case, ctx, W, b):
             # the wrapper did its documented job: handed over [W; alpha L]/max(d), [b; 0]/max(d) and returned scipy's x and
             # rnorm * max(d) unchanged -- only then can a failure be attributed to the third-party solver
             faithful = (vmax > 0 and A_s.shape == C.shape and np.allclose(A_s * vmax, C, rtol=1e-12, atol=0.0)
-                        and np.allclose(y_s * vmax, d, rtol=1e-12, atol=0.0) and np.array_equal(x_s, x)
-                        and abs(rn_s * vmax - rnorm) <= 1e-12 * abs(rnorm))
+                        and np.allclose(y_s * vmax, d, rtol=1e-12, atol=0.0) and np.array_equal(x_s, x))
+            faithful_rn = faithful and abs(rn_s * vmax - rnorm) <= 1e-12 * abs(rnorm)
             if tau_s > 0 and faithful:
                 upstream_kkt = bool(-g_s.min() > tau_s or (xinf_s > 0 and np.max(np.abs(x_s * g_s)) > tau_s * xinf_s))
-                upstream_rn = bool(abs(rn_s - rnn_s) > 1e-8 * nd_s + 1e-10 * nC_s * nx_s)
+                upstream_rn = faithful_rn and bool(abs(rn_s - rnn_s) > 1e-8 * nd_s + 1e-10 * nC_s * nx_s)
                 up_ratio = max(float(-g_s.min()) / tau_s, float(np.max(np.abs(x_s * g_s))) / (tau_s * xinf_s) if xinf_s > 0 else 0.0,
                                abs(rn_s - rnn_s) / (1e-8 * nd_s + 1e-10 * nC_s * nx_s))
     if 1e-3 < up_ratio <= 1.0:
